@@ -101,13 +101,22 @@ fn observe<T: ?Sized>(ty: &str, owned: bool, addr_text: &str, aix: u64) {
         Ok(h) => (true, h.as_ref().to_string()),
         Err(_) => (false, String::new()),
     };
+    let tagged = |h: &Remote<'static, T>| sylvia::cw_std::to_json_vec(h).map(|b| verif_rt::tag_text(&b)).unwrap_or_else(|e| json!({"t":"x","v":e.to_string()}));
+    let dec_json = dec.as_ref().map(|h| tagged(h)).unwrap_or(json!({"t":"-"}));
+    // the same record with further members next to `addr` (a record written by another version of the contract, say)
+    let loose_doc = format!("{{\"code_id\":7,\"addr\":{},\"label\":\"x\"}}", serde_json::to_string(addr_text).unwrap());
+    let loose: Result<Remote<'static, T>, _> = sylvia::cw_std::from_json(loose_doc.as_bytes());
+    let (loose_ok, loose_addr, loose_json) = match &loose {
+        Ok(h) => (true, h.as_ref().to_string(), tagged(h)),
+        Err(_) => (false, String::new(), json!({"t":"-"})),
+    };
     let own_round = enc.as_ref().ok().and_then(|b| sylvia::cw_std::from_json::<Remote<'static, T>>(b).ok()).map(|h| h.as_ref().to_string());
     let schema = schemars::schema_for!(Remote<'static, T>);
     let name = schema.schema.metadata.as_ref().and_then(|m| m.title.clone()).unwrap_or_default();
     let props: Vec<String> = schema.schema.object.as_ref().map(|o| o.properties.keys().cloned().collect()).unwrap_or_default();
     let required: Vec<String> = schema.schema.object.as_ref().map(|o| o.required.iter().cloned().collect()).unwrap_or_default();
     verif_rt::emit(json!({"ev":"RemoteEnc","ty":ty,"owned":owned,"aix":aix,"addr":addr_text,"enc_ok":enc_ok,"json":encj,
-        "dec_ok":dec_ok,"dec_addr":dec_addr,"round_ok":own_round.is_some(),"round_addr":own_round.unwrap_or_default(),
+        "dec_ok":dec_ok,"dec_addr":dec_addr,"dec_json":dec_json,"loose_ok":loose_ok,"loose_addr":loose_addr,"loose_json":loose_json,"round_ok":own_round.is_some(),"round_addr":own_round.unwrap_or_default(),
         "schema_name":name,"schema_props":props,"schema_required":required}));
 }
 
